@@ -124,7 +124,7 @@ Print Assumptions c04_moved_vectors_keep_their_constructor.
 (* ... and once every vector object is gone every block ever created, through whichever object it travelled, was
    constructed by a real constructor and destroyed exactly once *)
 Theorem c04_objects_death : forall sb n ops b,
-  forallb pos_ctor ops = true -> (forall v, slot (orun (oinit sb n) ops) v = None) ->
+  forallb pos_ctor ops = true -> (forall v, oslot (orun (oinit sb n) ops) v = None) ->
   (b < length (built (orun (oinit sb n) ops)))%nat ->
   0 < nth b (built (orun (oinit sb n) ops)) 0 /\ nth b (killed (orun (oinit sb n) ops)) 0%nat = 1%nat.
 Proof. exact cvo_death. Qed.
@@ -221,7 +221,7 @@ Print Assumptions c04_memory_order_obligations.
 (* non-vacuity: a reachable state in which a table was retired, freed 128 s later by gc() (no stale stamp) and a
    too-old snapshot found it freed *)
 Example c04_objects_example : forallb pos_ctor obj_example = true /\
-  (forall v, slot (orun (oinit 0 3) obj_example) v = None) /\ length (built (orun (oinit 0 3) obj_example)) = 5%nat.
+  (forall v, oslot (orun (oinit 0 3) obj_example) v = None) /\ length (built (orun (oinit 0 3) obj_example)) = 5%nat.
 Proof. exact cvo_example. Qed.
 
 Example c04_death_example :
